@@ -32,7 +32,7 @@ REQUIRED_BUCKETS = {"quick": ["mode:0", "mode:>0", "beta:on", "beta:off", "dim:1
                               "sequence:mode-changed-on-same-kernel", "contrast-matched:beta-on",
                               "magnetic-P", "magnetic-P:owns-volfraction", "precision:python-P-with-single-S",
                               "precision:python-P-with-long-double-S", "P:hollow-plugin-python", "P:hollow-plugin-c-string",
-                              "P:hollow-plugin-c-code"]}
+                              "P:hollow-plugin-c-code", "mode>0:unused-radius-entry-outside-limits"]}
 REQUIRED_BUCKETS["thorough"] = REQUIRED_BUCKETS["quick"]
 SF = ["hardsphere", "hayter_msa", "squarewell", "stickyhardsphere"]
 _cache = {}
@@ -466,6 +466,23 @@ def run_case(case, rec):
                       nontrivial=bool(np.any(np.abs(Sq - 1) > 1e-6)))
         if vi == 0 and k < 30:
             rec.observe(P=P, S=S, mode=mode, beta=beta, I=I, expected=exp, R_eff=float(Reff), V_shell=float(Vs))
+        # --- with the effective radius taken from the form factor (mode > 0) the structure factor's own radius entry is
+        # not used: whatever was left in it (a value outside its limits, a distribution with no point inside them)
+        # changes nothing
+        if mode > 0 and not (beta == 1 and dim == "2d") and "radius_effective" in info.parameters:
+            cpl = dict(cp, radius_effective=-abs(float(cp.get("radius_effective", 50.0))) - 1.0)
+            if info.parameters["radius_effective"].polydisperse:
+                cpl.update(radius_effective_pd=0.1, radius_effective_pd_n=5, radius_effective_pd_nsigma=2.0)
+            try:
+                Il = np.asarray(direct_model.call_kernel(kernel, dict(cpl), cutoff=cut), float)
+                okl = core.close(Il, I, 1e-12, 1e-14*float(np.nanmax(np.abs(I))) if np.any(np.isfinite(I)) else 0.0)
+            except Exception as exc:
+                Il, okl = repr(exc), False
+            rec.check("equals_documented_combination", okl,
+                      None if okl else dict(ctx, note="mode %d: left-over radius_effective outside its limits with a distribution" % mode,
+                                            left_over={kk: cpl[kk] for kk in cpl if kk.startswith("radius_effective")},
+                                            observed=Il, with_ordinary_left_over=I))
+            rec.bucket("mode>0:unused-radius-entry-outside-limits")
         # --- the same kernel object again with only the effective-radius mode (and then only beta) changed:
         # nothing computed for the previous request may be reused for a different one
         if "radius_effective_mode" in extra and len(modes) >= 1 and not (beta == 1 and dim == "2d"):
